@@ -6,7 +6,7 @@ ALL="C03 C05 C06 C07 C12 C13 C14 C15 C19 C20"
 OUT=/verif/seeded/RESULTS.tsv
 [ "$1" = "all" ] && OUT=/verif/seeded/RESULTS-all.tsv
 : > $OUT.tmp
-for d in seeded/*/; do
+for d in seeded/*${ONLY:-}*/; do
   name=$(basename $d); prop=${name%%-*}
   case "$prop" in C[0-9]*) ;; *) prop=$(python3 -c "import json,sys; print(json.load(open('$d/meta.json'))['property'])" 2>/dev/null);; esac
   [ -f $d/patch.diff ] || continue
@@ -17,4 +17,15 @@ for d in seeded/*/; do
     printf "%s\t%s\t%s\t%s\t%s\n" "$name" "${p%:}" "$code" "$pre/3 preconditions" "$(echo "$rest" | cut -c1-160)" >> $OUT.tmp
   done
 done
-mv $OUT.tmp $OUT; cat $OUT
+python3 - "$OUT" <<'PYEOF'
+import sys,os
+out=sys.argv[1]
+new=[l for l in open(out+".tmp")]
+names={l.split("\t")[0] for l in new}
+old=[l for l in open(out)] if os.path.exists(out) else []
+keep=[l for l in old if l.split("\t")[0] not in names]
+rows=sorted(keep+new)
+open(out,"w").writelines(rows)
+os.remove(out+".tmp")
+PYEOF
+ cat $OUT
